@@ -781,7 +781,6 @@ def install(it):
     conc_or_body('strings.IndexByte', lambda s, c: s.find(bytes([c])))
     conc_or_body('strings.Index', lambda s, sub: s.find(sub))
     conc_or_body('strings.IndexRune', lambda s, r: s.find(chr(r).encode('utf-8')) if 0 <= r < 0x110000 and not (0xd800 <= r < 0xe000) else -1)
-    conc_or_body('strings.Count', lambda s, sub: (len(s.decode('utf-8', 'replace')) + 1) if sub == b'' else s.count(sub))
     def sym_or_conc(name, conc, sym):
         def m(it_, a):
             if all(isinstance(x, (bytes, int, bool)) for x in a):
@@ -872,6 +871,39 @@ def install(it):
             return SliceV(ArrayV(ps), 0, len(ps), len(ps))
         raise Unsupported('strings.Split on symbolic string with this separator')
     sym_or_conc('strings.Split', split, s_split_sym)
+    def s_count_sym(s_, sep):
+        if isinstance(sep, bytes) and len(sep) == 1:
+            els = it.str_els(s_)
+            n = 0; terms = []
+            for e in els:
+                if is_sym(e): terms.append(z3.If(e == sep[0], z3.BitVecVal(1, 64), z3.BitVecVal(0, 64)))
+                elif e == sep[0]: n += 1
+            if not terms: return n
+            return z3.simplify(z3.BitVecVal(n, 64) + sum(terms[1:], terms[0]))
+        raise Unsupported('strings.Count on symbolic string with this separator')
+    sym_or_conc('strings.Count', lambda s_, sub: (len(s_.decode('utf-8', 'replace')) + 1) if sub == b'' else s_.count(sub), s_count_sym)
+    # sort on []int (concrete elements): in place, visible to the store hook
+    def ints_of(sl):
+        if sl.arr is None: return []
+        xs = sl.arr.a[sl.off:sl.off + sl.len]
+        if any(is_sym(x) for x in xs): raise Unsupported('sort of symbolic ints')
+        return list(xs)
+    def m_sortInts(it_, a):
+        sl = a[0]; xs = ints_of(sl); ys = sorted(xs)
+        for k, (x, y) in enumerate(zip(xs, ys)):
+            if x != y:
+                if it.store_hook is not None: it.store_hook(it, Ptr(sl.arr, sl.off + k), y)
+                sl.arr.a[sl.off + k] = y
+        return None
+    M['sort.Ints'] = m_sortInts
+    M['sort.IntsAreSorted'] = lambda it_, a: (lambda xs: all(xs[i] <= xs[i + 1] for i in range(len(xs) - 1)))(ints_of(a[0]))
+    def m_searchInts(it_, a):
+        import bisect
+        x = a[1]
+        if is_sym(x): x = it.concretize(x)
+        return bisect.bisect_left(ints_of(a[0]), x)
+    M['sort.SearchInts'] = m_searchInts
+
     def m_repeat(it_, a):
         return a[0] * a[1]
     M['strings.Repeat'] = m_repeat
